@@ -101,3 +101,27 @@ func JobsFor(prop, tier string) []Job {
 }
 
 var extraJobs = map[string]func(tier string) []Job{}
+
+const enumRule = "each evaluation is one faulted (or crashed) execution: for a seeded (history prefix, target operation) pair the target's faultable store calls (begin, get, set, delete, cursor item read, commit) are counted fault-free, then EVERY position k is executed on a freshly rebuilt database (exhaustive in k per pair; the pairs are sampled); plus seeded histories with invalid inputs and random fault positions. Non-trivial: the fault/crash fired with the operation in flight and the no-effect / atomicity oracle was evaluated; distinct = distinct hash of (backend, op list, position)"
+
+func init() {
+	propInfo["C04"] = &PropInfo{Level: "fault_enumeration", Rule: enumRule, Assumptions: append([]string{"store failures are injected at the store.Store/Tx/Cursor seam: the failing call returns an error without reaching the backend (for Commit the inner transaction is rolled back first: commit failed => nothing applied). Seek, Cursor(), Rollback and Close are not failed: the shipped adapters never fail them and the property does not list them"}, commonAssumptions...), RequiredProbes: []string{"fault-begin", "fault-get", "fault-set", "fault-delete", "fault-item", "fault-commit", "duplicate-id-at-batch-position>0", "malformed-id-at-batch-position>0", "update-produces-invalid-doc"}}
+	propInfo["C05"] = &PropInfo{Level: "fault_enumeration", Rule: enumRule + "; crash engines: simulated disk = crash before/after every faultable store call; real bbolt / badger on disk = a child process executes the history and is SIGKILLed at a store-call position (and, for bbolt, at a file-syscall position via strace fault injection), the parent reopens the directory and compares with the model state after m or m+1 acknowledged operations", Assumptions: append([]string{"process-kill semantics only: the OS page cache survives, lost or torn sector writes (power loss) are outside the statement and are not injected"}, commonAssumptions...), RequiredProbes: []string{"crash-with-writes-in-flight", "crash-op-absent", "crash-op-present", "clean-reopen"}}
+	extraJobs["C04"] = func(tier string) []Job {
+		return []Job{
+			{Engine: "fault", Backends: memAll, Quick: 1500, Thorough: 60000},
+			{Engine: "fault", Backends: []string{"bbolt", "badger-mem"}, Quick: 60, Thorough: 3000},
+			{Engine: "hist", Mode: "ids", Backends: memAll, Faults: []string{"faults", "none"}, Quick: 2000, Thorough: 80000, Opt: fullOpt},
+			{Engine: "hist", Mode: "audit", Backends: memAll, Faults: []string{"faults"}, Quick: 2000, Thorough: 80000, Opt: fullOpt},
+			{Engine: "hist", Mode: "export", Backends: memAll, Faults: []string{"faults"}, Quick: 1000, Thorough: 40000, Opt: fullOpt},
+			{Engine: "hist", Mode: "audit", Backends: realAll, Faults: []string{"faults"}, Quick: 300, Thorough: 10000, Opt: fullOpt},
+		}
+	}
+	extraJobs["C05"] = func(tier string) []Job {
+		return []Job{
+			{Engine: "crash", Backends: memAll, Quick: 1500, Thorough: 60000},
+			{Engine: "hist", Mode: "audit", Backends: memAll, Faults: []string{"crashes", "restarts"}, Quick: 2000, Thorough: 80000, Opt: fullOpt},
+			{Engine: "hist", Mode: "bulk", Backends: []string{"bbolt", "bbolt", "badger-disk"}, Faults: []string{"restarts"}, Quick: 400, Thorough: 15000, Opt: fullOpt},
+		}
+	}
+}
